@@ -76,7 +76,30 @@ class History:
                 self.fail = "CREATE TABLE failed"; return
         db.cmd("mark SETUP-DONE")
         label = 0
+        # a long-running transaction that stays open while other work commits (its records reach the
+        # durable log through other transactions' commits and through evictions: recovery must undo it)
+        bg_at = rng.randrange(0, max(1, nunits - 2)) if rng.random() < 0.7 else None
+        bg_open, bg_ops = False, 0
         for u in range(nunits):
+            if bg_at is not None and u >= bg_at and (not bg_open or rng.random() < 0.5) and bg_ops < 6:
+                if not bg_open:
+                    db.cmd("begin bg"); bg_open = True
+                    self.desc.append("open-bg")
+                # own rows only: keys >= 100000 are never touched by anybody else
+                k = 100000 + self.nextk; self.nextk += 1
+                n = rng.choice([5, 300, 700] if self.mode != "small" else [5, 20])
+                tt = rng.choice(TABLES)
+                what = rng.random()
+                if what < 0.6 or not getattr(self, "bgkeys", None):
+                    db.cmd("tsql bg INSERT INTO %s(k,g,v) VALUES (%d, 1, '%s');" % (tt, k, pad(n, k)))
+                    self.bgkeys = getattr(self, "bgkeys", []) + [(tt, k)]
+                elif what < 0.8:
+                    t2, k2 = rng.choice(self.bgkeys)
+                    db.cmd("tsql bg UPDATE %s SET v = '%s' WHERE k = %d;" % (t2, pad(n + 50, k2 + 7), k2))
+                else:
+                    t2, k2 = self.bgkeys.pop()
+                    db.cmd("tsql bg DELETE FROM %s WHERE k = %d;" % (t2, k2))
+                bg_ops += 1
             label += 1
             kind = rng.random()
             t = rng.choice(TABLES)
@@ -123,7 +146,8 @@ class History:
                                 self.keys[tt].append(k)
                 self.units.append({"label": label, "ops": ops, "committed": commit, "kind": "txn-commit" if commit else "txn-abort"})
                 self.desc.append("txn(%d,%s)" % (len(ops), "commit" if commit else "abort"))
-            else:
+            elif not bg_open:
+                # (a checkpoint waits for every open transaction to end: never issued while one is open in this single-threaded driver)
                 db.cmd("checkpoint")
                 db.cmd("mark CKPT")
                 self.desc.append("checkpoint")
